@@ -819,6 +819,13 @@ def Array(
                 if issubclass(cls.element_type, BitArrayType):
                     chunk_size = cls.element_type.size * 8
                     _len = len(values) // chunk_size
+                    if length is None and isinstance(cls.length, int):
+                        # fixed array of bit strings: length counts elements, not bools
+                        if _len < cls.length:
+                            raise DataError(
+                                f"Not enough values to encode array of {cls.element_type}[{cls.length}]"
+                            )
+                        _len = cls.length
                     values = [
                         values[i : i + chunk_size]
                         for i in range(0, len(values), chunk_size)
